@@ -144,6 +144,7 @@ func runEvalMany[E any](t *T, s *scheme[E], api, kind string, a *rlwe.Ciphertext
 		return
 	}
 	r0, r1 := canonCt(s.rq, o0), canonCt(s.rq, o1)
+	t.independentAny(api, api+" fresh "+kind, []any{o0, o1}, []named{{"in", a1}})
 	for _, pat := range []string{"out[0]=in", "out[1]=in"} {
 		t.distinct(api, pat, "ct", kind, true)
 		a2 := copyCt(a)
@@ -296,6 +297,8 @@ func runPoly[E any](t *T, s *scheme[E], api, variant string, a *rlwe.Ciphertext,
 		return
 	}
 	r0 := canonCt(s.rq, out)
+	// the ciphertext returned must not share storage with the input ciphertext, the polynomial or the keys
+	t.independentAny(api, api+" "+variant, []any{out}, append(ins(), named{"in", a1}))
 	for mode := 0; mode < 3; mode++ {
 		t.distinct(api, fmt.Sprintf("hist-poison%d", mode), "ct", variant, true)
 		ev := s.newEval()
@@ -387,6 +390,7 @@ func runCKKSPoly(c *eng.Ctx, cfg pcfg) {
 				if err != nil {
 					return "", err
 				}
+				t.out(o)
 				return ctString(s.rq, o), nil
 			}
 		})
@@ -483,6 +487,7 @@ func runBGVPoly(c *eng.Ctx, cfg pcfg) {
 				if err != nil {
 					return "", err
 				}
+				t.out(o)
 				return ctString(s.rq, o), nil
 			}
 		})
@@ -574,6 +579,7 @@ func runDiagDirectAt[E any](t *T, s *scheme[E], api, kind string, p rlwe.Paramet
 		ins := []named{{"matrix", &lt}, {"evk", evk}}
 		if out != in {
 			ins = append(ins, named{"ctIn", in})
+			t.out(out)
 		}
 		if !bsgs {
 			ins = append(ins, named{"BuffDecompQP", &dec})
@@ -622,6 +628,7 @@ func runLTNew[E any](t *T, s *scheme[E], kind string, a *rlwe.Ciphertext, f ltNe
 			if err != nil {
 				return "", err
 			}
+			t.out(o)
 			return ctString(s.rq, o), nil
 		}
 	})
@@ -644,6 +651,7 @@ func runLTNew[E any](t *T, s *scheme[E], kind string, a *rlwe.Ciphertext, f ltNe
 			if err != nil {
 				return "", err
 			}
+			t.out(o)
 			return str(o), nil
 		}
 	})
@@ -659,6 +667,7 @@ func runLTNew[E any](t *T, s *scheme[E], kind string, a *rlwe.Ciphertext, f ltNe
 			if err != nil {
 				return "", err
 			}
+			t.out(o)
 			return ctString(s.rq, o), nil
 		}
 	})
